@@ -4,12 +4,17 @@
 //                                    every strict prefix of the written stream is rejected (exception or failed stream)
 //  mode=config;id=<solver id>      : a registered solver (its whole parameter list, one parameter set to a symbolic in-domain value):
 //                                    write/read round trip gives equal parameters; every strict prefix is rejected
+//  mode=feature;kind=<s|m|r|t>;dst=<0..3> : a feature (single-label / multi-label with symbolic label characters, scalar, structured with
+//                                    SYMBOLIC dims; categorical features also with non-default dims) is written and read back into a
+//                                    destination that holds ANOTHER feature (dst: 0 fresh, 1 structured, 2 categorical, 3 scalar): type,
+//                                    dims, name and labels are those written; every strict prefix is rejected
 //  mode=string                     : nano::write/read of a string with symbolic characters; prefixes rejected
 #include "sbv.h"
 #include <cstring>
 #include <istream>
 #include <nano/configurable.h>
 #include <nano/core/stream.h>
+#include <nano/feature.h>
 #include <nano/solver.h>
 #include <ostream>
 #include <streambuf>
@@ -199,6 +204,75 @@ void mode_config()
     sbv_out("total", static_cast<uint64_t>(total));
 }
 
+void mode_feature()
+{
+    const long d0 = sbv_range("d0", 1, 3), d1 = sbv_range("d1", 1, 3), d2 = sbv_range("d2", 1, 2);
+    strings_t  labels = {"aa", "bb", "cc"};
+    sbv_make_symbolic(labels[1].data(), 2, "label");
+    sbv_assume(labels[1][0] != 0 && labels[1][1] != 0);
+    feature_t f{"src"};
+    if (sbv_cfg_is("kind", "s")) f.sclass(labels);
+    else if (sbv_cfg_is("kind", "m")) f.mclass(labels);
+    else if (sbv_cfg_is("kind", "r")) f.scalar(feature_type::float32);
+    else f.scalar(feature_type::int16, make_dims(d0, d1, d2));
+    // categorical features with non-default dims are reachable through the public setters
+    if (sbv_cfg("cdims", 0) && (sbv_cfg_is("kind", "s") || sbv_cfg_is("kind", "m")))
+    {
+        f = feature_t{"src"}.scalar(feature_type::uint8, make_dims(d0, d1, d2));
+        if (sbv_cfg_is("kind", "s")) f.sclass(labels);
+        else f.mclass(labels);
+    }
+    omembuf      ob(buf, buf + MAXBUF);
+    std::ostream os(&ob);
+    bool         thrown = false;
+    try
+    {
+        f.write(os);
+    }
+    catch (...)
+    {
+        thrown = true;
+    }
+    sbv_check(!thrown && !os.fail(), "writer: succeeds");
+    const long total = static_cast<long>(ob.written());
+    auto       make_dst = [&]()
+    {
+        switch (sbv_cfg("dst", 0))
+        {
+        case 1: return feature_t{"old"}.scalar(feature_type::float64, make_dims(2, 1, 3));
+        case 2: return feature_t{"old"}.sclass(strings_t{"x", "y", "z", "w"});
+        case 3: return feature_t{"old"}.scalar(feature_type::int64);
+        default: return feature_t{};
+        }
+    };
+    for (long p = 0; p <= total; ++p)
+    {
+        imembuf      ib(buf, buf + p);
+        std::istream is(&ib);
+        feature_t    g = make_dst();
+        bool         failed = false;
+        try
+        {
+            g.read(is);
+        }
+        catch (...)
+        {
+            failed = true;
+        }
+        failed = failed || is.fail();
+        if (p < total) sbv_check(failed, "strict prefix of a valid feature stream: reader reports failure");
+        else
+        {
+            sbv_check(!failed, "round trip: reader succeeds on the writer's output");
+            int same = (g.type() == f.type() && g.name() == f.name() && g.labels().size() == f.labels().size()) ? 1 : 0;
+            same &= (std::get<0>(g.dims()) == std::get<0>(f.dims()) && std::get<1>(g.dims()) == std::get<1>(f.dims()) && std::get<2>(g.dims()) == std::get<2>(f.dims())) ? 1 : 0;
+            for (size_t i = 0; same && i < f.labels().size(); ++i) same &= (g.labels()[i] == f.labels()[i]) ? 1 : 0;
+            sbv_check(same, "round trip: type, dims, name and labels of the feature are those written (destination held another feature)");
+            sbv_check(g == f, "round trip: the features compare equal");
+        }
+    }
+}
+
 void mode_string()
 {
     std::string value(static_cast<size_t>(sbv_cfg("len", 4)), 'x');
@@ -230,5 +304,6 @@ extern "C" void sbv_harness(const char*)
     if (sbv_cfg_is("mode", "param")) mode_param();
     else if (sbv_cfg_is("mode", "config")) mode_config();
     else if (sbv_cfg_is("mode", "string")) mode_string();
+    else if (sbv_cfg_is("mode", "feature")) mode_feature();
     sbv_reach("end of harness");
 }
